@@ -42,3 +42,14 @@ CLAIMS.update({
          "text": "fill_message_header / fill_group_header for five header-layout schemas (reordered members, custom offsets + gaps + extra members, mixed integer widths, numGroups/numVarDataFields counters, ref-typed members) and the message schemas: from an arbitrary prior image, exactly the schema's identifying values (and the numInGroup argument over its whole range) are written at the model's member offsets in the schema byte order, every other byte is unchanged, and the returned view is that header."},
 })
 for k in CLAIMS: NA.pop(k, None)
+
+CLAIMS.update({
+ "C10": {"level": "model_checking", "ref": "DESIGN.md §6 C10",
+         "text": "Checked build: for a view bound to malloc(n), every n from 0 to the full image size (symbolic) and symbolic image bytes, each accessor kind (field get/set, array element/raw()/strlen, cursor calls of all five kinds at the required position, group size/header/entry/resize/fill header, data size/bytes/resize/store, size_bytes, fill_message_header, cursor-based size) either invokes the assertion handler or performs no access outside the allocation (every load/store/memcpy/H1 touch tested with __CPROVER_r_ok/w_ok); and with the whole image inside the buffer the handler is never invoked."},
+ "C19": {"level": "translation_validation", "ref": "DESIGN.md §6 C19",
+         "text": "A recording visitor that returns true at the k-th callback (k symbolic) is run through visit_children / visit on mutable and const views: the event log equals the model's event sequence (each non-constant member once, schema order, own tag, accessor value/view, entries in order, composite children), visiting stops right after callback k, and after a complete visit the cursor is at the end of the view; enum visit yields the value tag or unknown tag for every underlying value; get_by_tag/set_by_tag meet the same reference obligations as the named accessors (C02/C01)."},
+ "C20": {"level": "other", "ref": "DESIGN.md §6 C20",
+         "text": "PARTIAL (I/O half only): fs_provider::write_file and create_directories, lowered with exceptions, against nondeterministic libstdc++ stubs: for every failure pattern of open / write / close / mkdir, a failure makes the call throw sbe_error and no failure makes it return normally with the data written and the stream closed. The determinism half and schema_compiler's use of the provider are not encoded (see level_note).",
+         "note": "C20 is claimed only for the fs_provider seam; stubs are part of the claim and listed in the evidence. "},
+})
+for k in CLAIMS: NA.pop(k, None)
